@@ -102,7 +102,7 @@ def elem(t): return t[4:-1]
 TRANSPARENT = {'ParenExpr', 'ExprWithCleanups', 'MaterializeTemporaryExpr', 'CXXBindTemporaryExpr', 'ConstantExpr'}
 
 LIBM = {'sqrt', 'pow', 'exp', 'log', 'log10', 'floor', 'cos', 'sin', 'acos', 'erf', 'fabs', 'abs', 'tan', 'atan', 'atan2',
-        'erfc', 'tgamma', 'lgamma', 'ceil', 'round', 'asin', 'cosh', 'sinh', 'tanh', 'isnan', 'isinf', 'fmod', 'cbrt', 'log1p', 'expm1', 'trunc', 'isfinite'}
+        'erfc', 'tgamma', 'lgamma', 'ceil', 'round', 'asin', 'cosh', 'sinh', 'tanh', 'isnan', 'isinf', 'fmod', 'cbrt', 'log1p', 'expm1', 'trunc', 'isfinite', 'llround', 'lround'}
 STD_FUNCS = {'min', 'max', 'swap', 'min_element', 'max_element', 'accumulate', 'is_sorted', 'upper_bound', 'lower_bound',
              'distance', 'sort', 'unique', 'nth_element', 'exit', 'make_pair', 'move', 'printf', 'reverse', 'find', 'iota', 'to_string'}
 SEQ_METHODS = {'size', 'empty', 'push_back', 'back', 'front', 'clear', 'resize', 'assign', 'erase', 'insert', 'begin', 'end',
@@ -523,9 +523,17 @@ class Translator:
             self.f.captures.add(rd['name'])
             return E('var', node_ty(n), name='$' + rd['name'], capture=True)
         if kind == 'VarDecl':
+            d = self.u.by_id.get(did, rd)
+            g = self.u.globals.get(rd.get('name'))
+            is_global = (g is not None and g.get('id') == did) or d.get('storageClass') == 'static'
+            if not is_global and self.f.self_rec == 'lambda':
+                # an automatic variable of the enclosing function referred to from a lambda body: a capture (clang omits the
+                # refersToEnclosingVariableOrCapture flag in some by-copy cases)
+                self.count('R13.capture')
+                self.f.captures.add(rd['name'])
+                return E('var', node_ty(n), name='$' + rd['name'], capture=True)
             # namespace-scope or static variable (R16)
             self.count('R16')
-            d = self.u.by_id.get(did, rd)
             return E('var', node_ty(n), name='::' + rd['name'], glob=True)
         if kind == 'EnumConstantDecl':
             d = self.u.by_id.get(did)
